@@ -17,8 +17,8 @@ DEV_INVARIANT = {"D_nsec3_label_expect": "NoPanic", "D_ttl0_node_panic": "NoPani
 
 META = {
     "category": "model_checking",
-    "text": "SCENARIO-LEVEL check. Validator.tla models the validator's walk (per RRset group: fetch DNSKEY/DS, verify, descend, cache; then classify positive / wildcard / NODATA / NXDOMAIN / CNAME and DNAME chains / DS) with one adversary action per rewrite kind (24, incl. AddCollidingKey / AddExtraDs: an honest zone with two keys of equal tag in both orders, two DS records one matching; CorruptSigOctets; HideCe: NSEC3 closest-encloser record withheld below an existing name; ReplayAncestor: genuine signed NSEC/NSEC3 of a DNAME owner / zone cut replayed as NXDOMAIN or NODATA proof for a name below it, and AddBadSig(n, position): extra non-verifying RRSIGs within / beyond the max_bad_signatures tolerance on answer, DS and DNSKEY RRsets) applied to any message on the wire, next to a declarative RFC 4035 s.5 oracle (ChainO/AnswerO over the messages as served, symbolic signatures). TLC checks Soundness, HonestSecure, InsecureNotBogus, WithinAllowed, CacheTransparent, NoPanic, Terminates; sequences of 2 (thorough: 3) validations of one question on ONE context with rewrites in every run (node cache in the model; signature / NSEC3-hash caches must be invisible) are explored and replayed on one real ValidationContext; exhaustively over 8 hierarchy shapes (incl. the leaf zone delegated below an empty non-terminal that sorts directly after the parent apex / after an ordinary name, secure and insecure) x 3 denial flavours x 10 query kinds (incl. NXDOMAIN two labels below the apex under an existing name, DNAME in the zone and DNAME in an insecure sibling zone pointing into the secure zone) x every single rewrite (quick, 16k scenarios + 6k forged-key pairs) / every pair of rewrites on different messages (thorough). Every scenario is then performed against the real validator: hierarchy signed with the library's signer and real ECDSA P-256 keys around the current time, NSEC/NSEC3/opt-out chains from the library's generators, mock upstream applying the rewrites; ValidationContext::validate_msg's state and net::client::validator::Connection's AD bit / SERVFAIL are compared with the specification. The real validator's upstream fetch sequences are recorded and validated by TLC against the machine (Trace_Validator.tla).",
-    "note": "Shallowest of the twenty checks: a scenario grid, not a proof over all zones/messages. Not covered: more than two composed rewrites; sequences of different questions on one context (the ENT-node observation in the report); the ENT shapes run with 3-4 query kinds only; RSA/other algorithms; wildcard or multi-hop DNAME; NSEC bitmaps {NS,DNAME} / DNAME at an apex; the denial helpers that take ValidatedGroup (nsec_for_not_exists etc.) are reached only through validate_msg - driving them directly needs a wider hook (ValidatedGroup constructor); NSEC3 iteration limits and max_bad_signatures beyond defaults; key-tag collisions; multiple keys/DS per zone, key rollovers; cache expiry over time; concurrent validations; message-level malformations other than zeroed counts (C01). Verdicts are compared against the set the property admits (adversary harmless => Secure or Bogus); the machine's exact verdict match is reported as a statistic. Trusted: TLC, ring, the harness's authoritative responder (the honest grid must come out Secure/Insecure for the check to pass). Two of three named deviations found are repaired (panic on non-Base32hex NSEC3 label, panic on TTL-0 nodes); D_extra_rrset_ignored is open. Signature times are compared in plain u32 order by the code (RFC 4034 3.1.5 demands serial arithmetic): witnessed with inception 0xFFFF0000, judged outside the property text, described in the report only. Needs hook validator_nsec_reexport.diff (H3) for the denial-helper stage; without it that stage is skipped and recorded as such.",
+    "text": "SCENARIO-LEVEL check. Validator.tla models the validator's walk (per RRset group: fetch DNSKEY/DS, verify, descend, cache; then classify positive / wildcard / NODATA / NXDOMAIN / CNAME and DNAME chains / DS) with one adversary action per rewrite kind (25, incl. ShortSig: honest signatures with seconds of validity left; AddCollidingKey / AddExtraDs: an honest zone with two keys of equal tag in both orders, two DS records one matching; CorruptSigOctets; HideCe: NSEC3 closest-encloser record withheld below an existing name; ReplayAncestor: genuine signed NSEC/NSEC3 of a DNAME owner / zone cut replayed as NXDOMAIN or NODATA proof for a name below it, and AddBadSig(n, position): extra non-verifying RRSIGs within / beyond the max_bad_signatures tolerance on answer, DS and DNSKEY RRsets) applied to any message on the wire, next to a declarative RFC 4035 s.5 oracle (ChainO/AnswerO over the messages as served, symbolic signatures). TLC checks Soundness, HonestSecure, InsecureNotBogus, WithinAllowed, CacheTransparent, NoPanic, Terminates; sequences of 2 (thorough: 3) validations of one question on ONE context with rewrites in every run (node cache in the model; signature / NSEC3-hash caches must be invisible) are explored and replayed on one real ValidationContext, including TimePasses between runs (clock_gettime interposed in the executor: nodes built from short-lived signatures must expire and be re-fetched) and Resalt (second NSEC3 parameter set; the NSEC3-hash cache must be invisible); exhaustively over 8 hierarchy shapes (incl. the leaf zone delegated below an empty non-terminal that sorts directly after the parent apex / after an ordinary name, secure and insecure) x 3 denial flavours x 10 query kinds (incl. NXDOMAIN two labels below the apex under an existing name, DNAME in the zone and DNAME in an insecure sibling zone pointing into the secure zone) x every single rewrite (quick, 16k scenarios + 6k forged-key pairs) / every pair of rewrites on different messages (thorough). Every scenario is then performed against the real validator: hierarchy signed with the library's signer and real ECDSA P-256 keys around the current time, NSEC/NSEC3/opt-out chains from the library's generators, mock upstream applying the rewrites; ValidationContext::validate_msg's state is compared with the specification, and net::client::validator::Connection's SERVFAIL / AD bit / stripping of DNSSEC records with ValidatorConn.tla's ConnView for all 8 request flag combinations CD x AD x DO (upstream answers carry AD) on a sub-grid, DO-only elsewhere. The real validator's upstream fetch sequences are recorded and validated by TLC against the machine (Trace_Validator.tla).",
+    "note": "Shallowest of the twenty checks: a scenario grid, not a proof over all zones/messages. Not covered: more than two composed rewrites; sequences of different questions on one context (the ENT-node observation in the report); the ENT shapes run with 3-4 query kinds only; RSA/other algorithms; wildcard or multi-hop DNAME; NSEC bitmaps {NS,DNAME} / DNAME at an apex; the denial helpers that take ValidatedGroup (nsec_for_not_exists etc.) are reached only through validate_msg - driving them directly needs a wider hook (ValidatedGroup constructor); NSEC3 iteration limits and max_bad_signatures beyond defaults; key-tag collisions; multiple keys/DS per zone, key rollovers; cache expiry over time; concurrent validations; message-level malformations other than zeroed counts (C01). Verdicts are compared against the set the property admits (adversary harmless => Secure or Bogus); the machine's exact verdict match is reported as a statistic. Trusted: TLC, ring, the harness's authoritative responder (the honest grid must come out Secure/Insecure for the check to pass). Two of three named deviations found are repaired (panic on non-Base32hex NSEC3 label, panic on TTL-0 nodes); D_extra_rrset_ignored and D_sigcache_ignores_time (signature cache ignores expiry: panic / expired signature accepted) are open. Signature times are compared in plain u32 order by the code (RFC 4034 3.1.5 demands serial arithmetic): witnessed with inception 0xFFFF0000, judged outside the property text, described in the report only. Needs hook validator_nsec_reexport.diff (H3) for the denial-helper stage; without it that stage is skipped and recorded as such.",
     "technique": "TLA+ spec (Validator.tla: validator walk + adversary actions + declarative oracle) + TLC exhaustive over the scenario grid; spec->impl scenario replay on a really signed hierarchy; impl->spec validation of recorded fetch sequences",
     "design_ref": "DESIGN.md §4 C14",
 }
